@@ -2,6 +2,8 @@ package main
 
 import (
 	"fmt"
+	"os"
+	"os/exec"
 	"strings"
 	"sync"
 
@@ -146,9 +148,43 @@ func (c *collector) op(class string) Op {
 	return Op{"op": "reuse-check", "class": class, "label": "fresh", "values": vals, "elements": els}
 }
 
+func init() {
+	// child process: the first randomisers a freshly started process draws
+	children["fresh-randomness-child"] = func(args []string) {
+		for i := 0; i < 4; i++ {
+			fmt.Println(revocation.NewProofRandomizer().Go().Text(16))
+		}
+	}
+	// a holder's application is restarted between proofs: the randomisers drawn after a start are
+	// not those drawn after the previous start
+	executors["fresh-process-randomness"] = func(o Op) string {
+		self, err := os.Executable()
+		if err != nil {
+			return "err"
+		}
+		seen := map[string]int{}
+		for run := 0; run < o.int("runs"); run++ {
+			out, err := exec.Command(self, "fresh-randomness-child").Output()
+			if err != nil {
+				return "err"
+			}
+			for _, l := range strings.Fields(string(out)) {
+				seen[l]++
+			}
+		}
+		for _, n := range seen {
+			if n > 1 {
+				return "repeated-across-restarts"
+			}
+		}
+		return "fresh"
+	}
+}
+
 func genC07(g *Rng, tier string, emit func(Op)) {
 	kp := fixedKey("k1024a", true)
 	emit(declKey(kp))
+	emit(Op{"op": "fresh-process-randomness", "class": "restart", "label": "fresh", "nomodel": true, "runs": 3})
 	nseq, maxOps, goroutines := 3, 12, []int{2, 8}
 	if tier == "thorough" {
 		nseq, maxOps, goroutines = 20, 40, []int{2, 8, 32}
